@@ -61,7 +61,7 @@ impl<'bundle> WriteValue<'bundle> for ast::InlineExpression<&'bundle str> {
             } => {
                 let (_, resolved_named_args) = scope.get_arguments(arguments.as_ref());
 
-                scope.local_args = Some(resolved_named_args);
+                let previous_args = scope.local_args.replace(resolved_named_args);
                 let result = scope
                     .bundle
                     .get_entry_term(id.name)
@@ -79,7 +79,7 @@ impl<'bundle> WriteValue<'bundle> for ast::InlineExpression<&'bundle str> {
                         }
                     })
                     .unwrap_or_else(|| scope.write_ref_error(w, self));
-                scope.local_args = None;
+                scope.local_args = previous_args;
                 result
             }
             Self::FunctionReference { id, arguments } => {
